@@ -3,7 +3,6 @@ import itertools
 import random
 import time
 
-from .. import adjust
 from .. import coqterm as ct
 from ..core import Prop
 
@@ -78,7 +77,7 @@ def eq_class(case, tid):
     return ("factory", t["factory"]) if t.get("factory") is not None else ("own", tid)
 
 
-class C04(adjust.Remember, Prop):
+class C04(Prop):
     id = "C04"
     corr_module = "Corr.C04Corr"
     preds = ("corr", "spec", "guard", "adj_literal", "adj_classes")
@@ -351,7 +350,7 @@ class C04(adjust.Remember, Prop):
                       if t.get("factory") is not None])
         rk = obs.get("req_kwargs")
         if rk is None:   # unusable request: an empty, trivially true case
-            return self.remember(case, "(mk %s %s [] None true (Ok ([], [])))" % (sigs, eqk))
+            return "(mk %s %s [] None true (Ok ([], [])))" % (sigs, eqk)
         reqs = ct.lst([ct.pair(self._tree(case, r["task"], [], {}), self._kw(k))
                        for r, k in zip(case["requests"], rk)])
         dt = default_tid(case)
@@ -362,7 +361,7 @@ class C04(adjust.Remember, Prop):
             log = ct.lst([ct.pair(ct.n(t), self._kw(kw)) for t, kw in obs["ok"]["log"]])
             res = ct.lst([ct.pair(ct.n(t), ct.n(v)) for t, v in obs["ok"]["results"]])
             o = "(Ok (%s, %s))" % (log, res)
-        return self.remember(case, "(mk %s %s %s %s %s %s)" % (sigs, eqk, reqs, dflt, ct.b(case["dedupe"]), o))
+        return "(mk %s %s %s %s %s %s)" % (sigs, eqk, reqs, dflt, ct.b(case["dedupe"]), o)
 
     # ---- classification ----------------------------------------------------------
     def _order(self, case, obs):
@@ -397,7 +396,7 @@ class C04(adjust.Remember, Prop):
             kind += ":cmdline"
         return kind
 
-    def finding_of(self, case, obs):
+    def finding_of(self, case, obs, verdict=None):
         """F-C04: dedupe on and two calls of one task have the same effective arguments but differ literally.
         F-C04c: dedupe on and two *different* tasks of one factory (same Task.__eq__ class) are called with
         Python-equal literal arguments.  (The adjusted judgement is made in Coq: core consults this only
@@ -415,7 +414,7 @@ class C04(adjust.Remember, Prop):
                 fac = True
         # the judgement itself is made in Coq: the specification with the finding's expectation
         # substituted must accept the observation
-        v = self.verdicts(case)
+        v = verdict or {}
         if lit and v.get("adj_literal"):
             return "F-C04"
         if fac and v.get("adj_classes"):
